@@ -222,13 +222,19 @@ fn lower_sub_ast_to_instrs(
         LowerStmt::Instr(instr) => Some({
             // this is the second time we're using encode_args (first time was to get labels), so suppress warnings
             let null_emitter = ctx.emitter.with_writer(crate::diagnostic::dev_null());
-            encode_args(&mut encoding_state, hooks, &instr, &ctx.defs, &null_emitter)
-                .expect("we encoded this successfully before!")
+            encode_args(&mut encoding_state, hooks, &instr, &ctx.defs, &null_emitter).or_else(|_| {
+                // The first time, label offsets and times were placeholders.  Their real values can fail
+                // to fit a narrow argument; encode once more, this time letting the error be seen.
+                match encode_args(&mut ArgEncodingState::new(), hooks, &instr, &ctx.defs, &ctx.emitter) {
+                    Err(e) => Err(e),
+                    Ok(_) => Err(ctx.emitter.emit(error!("an instruction could not be encoded with the final values of its labels"))),
+                }
+            })
         }),
         LowerStmt::Label { .. } => None,
         LowerStmt::RegAlloc { .. } => None,
         LowerStmt::RegFree { .. } => None,
-    }).collect();
+    }).collect::<Result<Vec<_>, ErrorReported>>()?;
     let debug_info = do_debug_info.then(|| debug_info::ScriptLoweringInfo {
         register_info: debug_info_registers.unwrap(),
         offset_info: debug_info_labels.unwrap(),
